@@ -11,9 +11,9 @@
       that byte is `v`;
     * `epoch` is the first digit run when it is followed by `!` and a digit;
     * `release` is the longest `digits(.digits)*`;
-    * `pre`:  [-_.]? then the FIRST of a|b|c|rc|alpha|beta|pre|preview that is
-      a prefix (so `alpha` is read as `a` and the match stops inside the
-      word), then [-_.]? and an optional number;
+    * `pre`:  [-_.]? then the FIRST of alpha|a|beta|b|c|rc|preview|pre that is
+      a prefix (every alternative stands before its own prefixes since the
+      `fix:` commit d16bae31), then [-_.]? and an optional number;
     * `post`: `-digits`, or [-_.]? (post|rev|r) [-_.]? digits?;
     * `dev`:  [-_.]? dev [-_.]? digits?;
     * the local version is matched by the expression but never read.
@@ -62,7 +62,8 @@ def firstAlt : List (List Char) → List Char → Option (List Char × List Char
     | none => firstAlt as s
 
 def preAlts : List (List Char) :=
-  [['a'], ['b'], ['c'], ['r', 'c'], ['a', 'l', 'p', 'h', 'a'], ['b', 'e', 't', 'a'], ['p', 'r', 'e'], ['p', 'r', 'e', 'v', 'i', 'e', 'w']]
+  [['a', 'l', 'p', 'h', 'a'], ['a'], ['b', 'e', 't', 'a'], ['b'], ['c'], ['r', 'c'],
+   ['p', 'r', 'e', 'v', 'i', 'e', 'w'], ['p', 'r', 'e']]
 def postAlts : List (List Char) := [['p', 'o', 's', 't'], ['r', 'e', 'v'], ['r']]
 def devAlts : List (List Char) := [['d', 'e', 'v']]
 
@@ -199,7 +200,7 @@ def project (v : Ver) : Version :=
   let post := toInt32 v.post
   let (preL', dev) :=
     if v.dev ≠ 0 then
-      (if v.post ≠ 0 || preL ≠ 0 then (preL, toInt32 (-(toInt32 v.dev)))
+      (if v.post ≠ 0 || preL ≠ 0 then (preL, toInt32 (minInt32 + toInt32 v.dev))
        else (toInt32 (minInt32 + toInt32 v.dev), 0))
     else (preL, 0)
   { kind := ['p', 'e', 'p', '4', '4', '0'],
